@@ -175,6 +175,7 @@ impl DocumentBuilder {
         }
         // add attribute nodes
         let mut attribute_spans = Vec::new();
+        let mut seen_name_ids = Vec::new();
         for attribute_builder in element_builder.attributes {
             let name_id = self.name_id_builder.attribute_name_id(
                 &attribute_builder.prefix,
@@ -182,6 +183,20 @@ impl DocumentBuilder {
                 attribute_builder.prefix_span,
                 xot,
             )?;
+            // two attributes with different prefixes can still have the same
+            // expanded name, which is not allowed either
+            if seen_name_ids.contains(&name_id) {
+                let attr_name = if attribute_builder.prefix.is_empty() {
+                    attribute_builder.name
+                } else {
+                    format!("{}:{}", attribute_builder.prefix, attribute_builder.name)
+                };
+                return Err(ParseError::DuplicateAttribute(
+                    attr_name,
+                    attribute_builder.name_span,
+                ));
+            }
+            seen_name_ids.push(name_id);
             // if we see xml:id, check that they aren't a duplicate
             // and keep track of all node ids that have an xml:id
             if name_id == self.xml_id_id {
